@@ -41,6 +41,9 @@ def obligations(tier, ctx):
                               pre=["0 <= i", f"i + {d} <= H.data_len({kt!r}, {crlf})"],
                               call=f"H.routing({kt!r}, {crlf}, i, {d})", backend="P", timeout=400,
                               family="(c) isolation and routing: every cut position (middle chunk of d bytes), real decoder and parser"))
+    for kt in [("notif", "resp"), ("notif", "notif", "req")]:
+        obs.append(Ob(name="notify_refused_" + "_".join(kt), params=[("mode", "int")], pre=["0 <= mode <= 2"], call=f"H.routing_notify_refused({kt!r}, mode)",
+                      backend="P", timeout=120, family="(c) notification stream full / closed: the read stream still gets every message"))
     return obs
 
 
